@@ -60,8 +60,9 @@ func (p *poller) accept() error {
 func (p *poller) readConn(c *Conn) {
 	for {
 		pbuf := p.g.borrow(c)
+		bufLen := len(*pbuf)
 		_, err := c.read(*pbuf)
-		p.g.payback(c, pbuf)
+		p.g.payback(c, pbuf, bufLen)
 		if err != nil {
 			c.Close()
 			return
